@@ -347,6 +347,15 @@ def run_cases(ctx, cases, model_exe, env=None):
         o = impl.get(c.cid)
         if c.full_eligible() and o is not None and not o.startswith(("CRASH", "UNSUPPORTED")):
             flines.append(c.full_line())
+        if o is not None and o.startswith("CRASH") and "inverse.hpp" in o and "is_zero(d)" in o:
+            # assert(!math::is_zero(d)) in detail::inverse: a smoother / coarse solver was set up on a SINGULAR
+            # diagonal block (e.g. smoothed_aggr_emin producing a zero prolongation column, see the finding
+            # C02-emin-zero-prolongation).  For block value types this assertion is the counterpart of the
+            # "zero pivot" exception of the scalar code: construction is refused, which C03 admits (the
+            # property is about hierarchies that were constructed).  Counted, never silently dropped.
+            st.setdefault("impl_singular_block_asserts", 0); st["impl_singular_block_asserts"] += 1
+            st["by_op"]["singular-block-assert(out of domain)"] = st["by_op"].get("singular-block-assert(out of domain)", 0) + 1
+            continue
         if o is None or o.startswith("CRASH"):
             f = fail(c, "implementation crashed or gave no answer (amgb driver)", impl=o)
             if o is not None and c.cfg["direct_coarse"]: f["block"].update(diagnose_crash(ctx, c, env))
